@@ -141,6 +141,10 @@ impl Link {
             w.wake();
         }
     }
+    /// frames the link carries before the livelock guard stops the writer (0 = default 100 000)
+    pub fn set_budget(&self, n: usize) {
+        self.0.lock().unwrap().budget = n;
+    }
     pub fn over_budget(&self) -> bool {
         self.0.lock().unwrap().over_budget
     }
